@@ -159,6 +159,8 @@ class ExprMixin:
     def _ev_star_seq(self, elts, p, kind):
         def fin(q, vs):
             seq = None
+            if self.lenient and any(isinstance(v, VOpaque) for v in vs):
+                return [(q, VOpaque("display with unmodelled parts"))]
             for e, v in zip(elts, vs):
                 if isinstance(e, ast.Starred):
                     part = self.to_seq(v, q)
@@ -304,6 +306,9 @@ class ExprMixin:
         def k(q, v):
             if isinstance(node.op, ast.Not):
                 return [(q, VBool(z3.Not(self.truth(v, q))))]
+            if isinstance(v, VOpt) and isinstance(node.op, (ast.USub, ast.UAdd, ast.Invert)):
+                # arithmetic on an optional: TypeError when it is None
+                return self.raise_if(q, v.isnone, "TypeError", self.where(node), lambda q2: k(q2, v.val))
             if isinstance(node.op, ast.USub):
                 if isinstance(v, VInt):
                     return [(q, VInt(-v.z))]
